@@ -45,8 +45,13 @@ def builders():
         # to a tenth (9.95 .. 9.99) belong to the second form
         spd = r.choice([0.0, 0.01, 0.04, 0.05, 0.1, 5.0, 9.9, 9.94, 9.95, 9.96, 9.99, 10.0, 10.4, 12.0, 99.0, 99.4, 99.6, 100.0, 999.0, 999.4, 999.5,
                         999.9, float(r.randrange(0, 1000)), r.randrange(1, 100) / 10, round(r.uniform(9.9, 10.1), 3), round(r.uniform(0, 999.9), 2)])
-        return L.GPSData(data_valid=r.choice(["A", "V"]), greenwich_time=datetime.time(r.randrange(24), r.randrange(60), r.randrange(60)),
-                         greenwich_date=datetime.date(r.randrange(2000, 2100), r.randrange(1, 13), r.randrange(1, 29)),
+        # the legal values whose text is all zeros or collides with an "absent" sentinel: midnight, the first day of 2000
+        tm = r.choice([datetime.time(0, 0, 0), datetime.time(0, 0, 1), datetime.time(23, 59, 59), datetime.time(10, 0, 0),
+                       datetime.time(r.randrange(24), r.randrange(60), r.randrange(60)), datetime.time(r.randrange(24), r.randrange(60), r.randrange(60))])
+        dt = r.choice([datetime.date(2000, 1, 1), datetime.date(2099, 12, 31), datetime.date(2010, 10, 10), datetime.date(r.randrange(2000, 2100), 2, 29 if False else 28),
+                       datetime.date(r.randrange(2000, 2100), r.randrange(1, 13), r.randrange(1, 29)),
+                       datetime.date(r.randrange(2000, 2100), r.randrange(1, 13), r.randrange(1, 29))])
+        return L.GPSData(data_valid=r.choice(["A", "V"]), greenwich_time=tm, greenwich_date=dt,
                          north_south=r.choice(["N", "S"]), latitude=lat, east_west=r.choice(["E", "W"]), longitude=lon, speed_knots=spd,
                          direction=r.choice([0, 1, 121, 359]))
 
@@ -62,7 +67,7 @@ def builders():
         def f(r):
             has_opt = bool(r.getrandbits(1))
             kw = dict(opcode=op, is_reliable=rel(r), is_confirmed=rel(r), has_option=has_opt, request_id=req(r), destination_ip=ip(r),
-                      option_data=(r.choice([b"", b"\x01", gen.rbytes(r, 7), gen.rbytes(r, 300)]) if has_opt else None))
+                      option_data=(r.choice([b"", b"\x01", b"\x00", bytes(7), b"\xff" * 5, gen.rbytes(r, 7), gen.rbytes(r, 300)]) if has_opt else None))
             if op in (T.TMPService.SendPrivateMessage, T.TMPService.SendGroupMessage):
                 kw.update(source_ip=ip(r), text_data=r.choice(texts))
             elif op in (T.TMPService.SendPrivateMessageAck, T.TMPService.PrivateShortDataAck):
